@@ -55,7 +55,7 @@ enum Arg {
 }
 
 pub struct SingleExecMatcher {
-    executable: String,
+    executable: Arg,
     args: Vec<Arg>,
     exec_in_parent_dir: bool,
 }
@@ -66,21 +66,20 @@ impl SingleExecMatcher {
         args: &[&str],
         exec_in_parent_dir: bool,
     ) -> Result<Self, Box<dyn Error>> {
-        let transformed_args = args
-            .iter()
-            .map(|&a| {
-                let parts = a.split("{}").collect::<Vec<_>>();
-                if parts.len() == 1 {
-                    // No {} present
-                    Arg::LiteralArg(OsString::from(a))
-                } else {
-                    Arg::FileArg(parts.iter().map(OsString::from).collect())
-                }
-            })
-            .collect();
+        // Every {} is replaced by the path, in the command word as in its arguments.
+        let transform = |a: &str| {
+            let parts = a.split("{}").collect::<Vec<_>>();
+            if parts.len() == 1 {
+                // No {} present
+                Arg::LiteralArg(OsString::from(a))
+            } else {
+                Arg::FileArg(parts.iter().map(OsString::from).collect())
+            }
+        };
+        let transformed_args = args.iter().map(|&a| transform(a)).collect();
 
         Ok(Self {
-            executable: executable.to_string(),
+            executable: transform(executable),
             args: transformed_args,
             exec_in_parent_dir,
         })
@@ -95,14 +94,13 @@ impl Matcher for SingleExecMatcher {
         } else {
             (None, file_info.path().to_path_buf())
         };
-        let mut command = Command::new(&self.executable);
-
-        for arg in &self.args {
-            match *arg {
-                Arg::LiteralArg(ref a) => command.arg(a.as_os_str()),
-                Arg::FileArg(ref parts) => command.arg(parts.join(path_to_file.as_os_str())),
-            };
-        }
+        let substitute = |arg: &Arg| match arg {
+            Arg::LiteralArg(a) => a.clone(),
+            Arg::FileArg(parts) => parts.join(path_to_file.as_os_str()),
+        };
+        let executable = substitute(&self.executable);
+        let mut command = Command::new(&executable);
+        command.args(self.args.iter().map(substitute));
         // Paths like "foo" are in the current directory: avoid chdir("").
         if let Some(dir) = dir.filter(|dir| !dir.as_os_str().is_empty()) {
             command.current_dir(dir);
@@ -111,7 +109,12 @@ impl Matcher for SingleExecMatcher {
             Ok(status) => status.success(),
             Err(e) => {
                 // A diagnostic that cannot be written must not stop the walk.
-                let _ = writeln!(&mut stderr(), "Failed to run {}: {}", self.executable, e);
+                let _ = writeln!(
+                    &mut stderr(),
+                    "Failed to run {}: {}",
+                    executable.to_string_lossy(),
+                    e
+                );
                 false
             }
         }
